@@ -723,3 +723,563 @@ RECIPES += [
 ''', '''    return {tid: np.vstack([vec[8:-1:2], vec[10:-1:2]]).T for tid, vec in d.items()}
 ''', "rdtabled1 dict comprehension with a shifted ordinate stride"),
 ]
+
+
+# ====================================================================================================================== second hardening pass
+# constructs the evaluator was taught in the second pass: each has a behaviour-preserving recipe (must be silent) and a recipe with a defect placed
+# inside the new form (must be reported by the named rule)
+_T1_TITLE_BODY = """    if title:
+        f.write(f"$ {title:s}\\n")
+""" + _T1_BODY
+
+_T1_LEFT_SMALL = '''        f.write("        ")
+        for j in range(r, npts):
+            f.write(form.format(t[j], d[j]))
+    f.write("ENDT\\n")
+'''
+
+_T1_INPUTS = '''    t, d = np.atleast_1d(t, d)
+    t = t.ravel()
+    d = d.ravel()
+    npts = len(t)'''
+
+_T1_SMALL_VEC = '''        if rows:
+            writer.vecwrite(
+                f,
+                "        " + form * 4 + "\\n",
+                t[:r:4],
+                d[:r:4],
+                t[1:r:4],
+                d[1:r:4],
+                t[2:r:4],
+                d[2:r:4],
+                t[3:r:4],
+                d[3:r:4],
+            )
+'''
+
+_GRIDS_BODY = '''    if ps == seid == "":
+        if len(teststr) > 8:
+            string = (
+                "GRID*   {:16d}{:16d}" + form * 2 + "\\n*       " + form + "{:16d}\\n"
+            )
+        else:
+            string = "GRID    {:8d}{:8d}" + form * 3 + "{:8d}\\n"
+        writer.vecwrite(f, string, grids, cp, xyz[:, 0], xyz[:, 1], xyz[:, 2], cd)
+    else:
+        if len(teststr) > 8:
+            string = (
+                "GRID*   {:16d}{:16d}"
+                + form * 2
+                + "\\n*       "
+                + form
+                + "{:16d}{:>16}{:>16}\\n"
+            )
+        else:
+            string = "GRID    {:8d}{:8d}" + form * 3 + "{:8d}{:>8}{:>8}\\n"
+        writer.vecwrite(
+            f, string, grids, cp, xyz[:, 0], xyz[:, 1], xyz[:, 2], cd, ps, seid
+        )
+'''
+
+_DMIG_COLS = '''        for col in range(m.shape[1]):
+            if m[:, col].any():
+                start_row = col if form == 6 else 0
+                if colids.nlevels == 2:
+                    gj, cj = colids[col]
+                else:
+                    gj = colids[col]
+                    cj = 0
+                f.write(f"{'DMIG*':<8s}{name:<16s}{gj:16d}{cj:16d}\\n")
+                for row in range(start_row, m.shape[0]):
+                    num = m[row, col]
+                    if num != 0.0:
+                        gi, ci = rowids[row]
+''' + _DMIG_TERM
+
+_WTSET_FULL = '''    output = [f"SET {setid:d} = "]
+    start = 0
+    while start < length:
+        end = _find_sequence(ids, start)
+''' + _WTSET_LOOP
+
+_SPOINTS_TAIL = '''    def init(fields, write=True):
+        if write:
+            wtcard8(f, fields)
+        return ["SPOINT"]
+
+    _wt_with_thru(f, spoints, init)
+'''
+
+_THRU_LOOP = '''    length = len(seq)
+    start = 0
+    fields = init_func([], False)
+    init_length = len(fields)
+    while start < length:
+        end = _find_sequence(seq, start)
+        if end > start:
+            if len(fields) > init_length:
+                fields = init_func(fields)
+            fields.extend([seq[start], "THRU", seq[end]])
+            start = end + 1
+            fields = init_func(fields)
+        else:
+            fields.append(seq[start])
+            start += 1
+        if len(fields) == 9:
+            fields = init_func(fields)
+'''
+
+_RDDMIG_MAIN = '''    if f is not None and not isinstance(f, str):
+        # assume file handle, assume punch
+        cards = rdcards(
+            f,
+            name="dmig",
+            return_var="list",
+            blank="",
+            follow_includes=follow_includes,
+            include_symbols=include_symbols,
+        )
+        return _cards_to_df(cards, dmig_names)
+
+    # read op2 or punch ... try op2, if that fails, assume punch:
+    dmigfile = guitools.get_file_name(f, read=True)
+    try:
+        o2 = op2.OP2(dmigfile)
+    except ValueError:
+        cards = rdcards(
+            dmigfile,
+            name="dmig",
+            return_var="list",
+            blank="",
+            follow_includes=follow_includes,
+            include_symbols=include_symbols,
+        )
+        dct = _cards_to_df(cards, dmig_names)
+    else:
+        o2dct = _read_op2_dmig(o2, dmig_names)
+        del o2
+        dct = _recs_to_df(o2dct)
+    return dct
+'''
+
+
+def _pair(neutral_new, break_new, old, rules, what, bad, file=B):
+    return [("C13", "neutral", [], file, old, neutral_new, what),
+            ("C13", "break", rules, file, old, break_new, what + " -- " + bad)]
+
+
+RECIPES += (
+    # ---- a counted `while` loop is the `for ... in range` it spells
+    _pair('''        f.write("        ")
+        j = r
+        while j < npts:
+            f.write(form.format(t[j], d[j]))
+            j += 1
+    f.write("ENDT\\n")
+''', '''        f.write("        ")
+        j = r + 1
+        while j < npts:
+            f.write(form.format(t[j], d[j]))
+            j += 1
+    f.write("ENDT\\n")
+''', _T1_LEFT_SMALL, ["C13-R1"], "tabled1 small field: leftover pairs by a counted while loop", "the loop starts one pair late")
+    + _pair('''        f.write("        ")
+        j = r
+        while True:
+            if not j < npts:
+                break
+            f.write(form.format(t[j], d[j]))
+            j = j + 1
+    f.write("ENDT\\n")
+''', '''        f.write("        ")
+        j = r
+        while True:
+            if not j < npts - 1:
+                break
+            f.write(form.format(t[j], d[j]))
+            j = j + 1
+    f.write("ENDT\\n")
+''', _T1_LEFT_SMALL, ["C13-R1"], "tabled1 small field: leftover pairs by `while True` + break", "the last pair is never written")
+    # ---- generator used as a helper of a loop
+    + _pair('''    def _runs():
+        first = 0
+        while first < length:
+            last = _find_sequence(ids, first)
+            yield first, last
+            first = last + 1
+
+    output = [f"SET {setid:d} = "]
+    for start, end in _runs():
+        if end > start:
+            output.append(f"{ids[start]:d} THRU {ids[end]:d}, ")
+        else:
+            output.append(f"{ids[start]:d}, ")
+    output[-1] = output[-1].rstrip(", ")  # strip the trailing comma from the last item
+''', '''    def _runs():
+        first = 0
+        while first < length:
+            last = _find_sequence(ids, first)
+            yield first, last
+            first = last + 2
+
+    output = [f"SET {setid:d} = "]
+    for start, end in _runs():
+        if end > start:
+            output.append(f"{ids[start]:d} THRU {ids[end]:d}, ")
+        else:
+            output.append(f"{ids[start]:d}, ")
+    output[-1] = output[-1].rstrip(", ")  # strip the trailing comma from the last item
+''', _WTSET_FULL, ["C13-R4"], "wtset: the runs come from a (nested) generator", "the generator skips the id after every run")
+    # ---- the position of the THRU loop carried by another quantity
+    + _pair('''    output = [f"SET {setid:d} = "]
+    end = -1
+    while end + 1 < length:
+        first = end + 1
+        end = _find_sequence(ids, first)
+        if end > first:
+            output.append(f"{ids[first]:d} THRU {ids[end]:d}, ")
+        else:
+            output.append(f"{ids[first]:d}, ")
+    output[-1] = output[-1].rstrip(", ")  # strip the trailing comma from the last item
+''', '''    output = [f"SET {setid:d} = "]
+    end = 0
+    while end + 1 < length:
+        first = end + 1
+        end = _find_sequence(ids, first)
+        if end > first:
+            output.append(f"{ids[first]:d} THRU {ids[end]:d}, ")
+        else:
+            output.append(f"{ids[first]:d}, ")
+    output[-1] = output[-1].rstrip(", ")  # strip the trailing comma from the last item
+''', _WTSET_FULL, ["C13-R4"], "wtset: the position is carried by the last index written", "the first id is never written")
+    + _pair('''    length = len(seq)
+    fields = init_func([], False)
+    init_length = len(fields)
+    done = 0  # number of ids written so far
+    while done != length:
+        end = _find_sequence(seq, done)
+        if end == done:
+            fields.append(seq[done])
+        else:
+            if len(fields) > init_length:
+                fields = init_func(fields)
+            fields.extend([seq[done], "THRU", seq[end]])
+            fields = init_func(fields)
+        done = end + 1
+        if len(fields) == 9:
+            fields = init_func(fields)
+''', '''    length = len(seq)
+    fields = init_func([], False)
+    init_length = len(fields)
+    done = 0  # number of ids written so far
+    while done != length:
+        end = _find_sequence(seq, done)
+        if end == done:
+            fields.append(seq[done])
+        else:
+            if len(fields) > init_length:
+                fields = init_func(fields)
+            fields.extend([seq[done], "THRU", seq[end]])
+            fields = init_func(fields)
+        done = end
+        if len(fields) == 9:
+            fields = init_func(fields)
+''', _THRU_LOOP, ["C13-R4"], "_wt_with_thru: counter of ids written, `!=` test, one update", "the counter stops on the last id of a run")
+    # ---- callbacks: functools.partial of a module-level helper, lambda
+    + _pair('''    import functools
+
+    _wt_with_thru(f, spoints, functools.partial(_spoint_card, f, ("SPOINT",)))
+
+
+def _spoint_card(f, first_fields, fields, write=True):
+    if write:
+        wtcard8(f, fields)
+    return list(first_fields)
+''', '''    import functools
+
+    _wt_with_thru(f, spoints[1:], functools.partial(_spoint_card, f, ("SPOINT",)))
+
+
+def _spoint_card(f, first_fields, fields, write=True):
+    if write:
+        wtcard8(f, fields)
+    return list(first_fields)
+''', _SPOINTS_TAIL, ["C13-R4"], "wtspoints: the closure replaced by functools.partial of a module-level helper", "the first id is not handed on")
+    + [("C13", "neutral", [], B, _SPOINTS_TAIL, '''    _wt_with_thru(
+        f, spoints, lambda fields, write=True: (wtcard8(f, fields) if write else None, ["SPOINT"])[1]
+    )
+''', "wtspoints: the closure as a lambda")]
+    # ---- (b, a)[condition]
+    + _pair('''                start_row = (0, col)[form == 6]
+''', '''                start_row = (0, col + 1)[form == 6]
+''', '''                start_row = col if form == 6 else 0
+''', ["C13-R3"], "wtdmig: start row by a tuple indexed with the condition", "form 6 skips the diagonal")
+    # ---- rows by enumerate over the sliced column
+    + _pair('''        for col in range(m.shape[1]):
+            column = m[:, col]
+            if not column.any():
+                continue
+            start_row = col if form == 6 else 0
+            if colids.nlevels == 2:
+                gj, cj = colids[col]
+            else:
+                gj, cj = colids[col], 0
+            f.write(f"{'DMIG*':<8s}{name:<16s}{gj:16d}{cj:16d}\\n")
+            for row, num in enumerate(column[start_row:], start_row):
+                if num == 0.0:
+                    continue
+                gi, ci = rowids[row]
+                if mtype < 3:  # real
+                    num_str = f"{num:16.9E}"
+                else:  # complex
+                    num_str = f"{num.real:16.9E}{num.imag:16.9E}"
+                if mtype & 1 == 0:  # if even
+                    num_str = num_str.replace("E", "D")
+                f.write(f"{'*':<8s}{gi:16d}{ci:16d}{num_str:s}\\n")
+''', '''        for col in range(m.shape[1]):
+            column = m[:, col]
+            if not column.any():
+                continue
+            start_row = col + 1 if form == 6 else 0
+            if colids.nlevels == 2:
+                gj, cj = colids[col]
+            else:
+                gj, cj = colids[col], 0
+            f.write(f"{'DMIG*':<8s}{name:<16s}{gj:16d}{cj:16d}\\n")
+            for row, num in enumerate(column[start_row:], start_row):
+                if num == 0.0:
+                    continue
+                gi, ci = rowids[row]
+                if mtype < 3:  # real
+                    num_str = f"{num:16.9E}"
+                else:  # complex
+                    num_str = f"{num.real:16.9E}{num.imag:16.9E}"
+                if mtype & 1 == 0:  # if even
+                    num_str = num_str.replace("E", "D")
+                f.write(f"{'*':<8s}{gi:16d}{ci:16d}{num_str:s}\\n")
+''', _DMIG_COLS, ["C13-R3"], "wtdmig: rows of a column by enumerate(column[start_row:], start_row) (F12 keys must survive)", "form 6 skips the diagonal")
+    # ---- closed form instead of a loop counter
+    + _pair('''    n = len(ints)
+    firstline = 10 - start
+    if n >= firstline:
+        f.write(("{:8d}" * firstline + "\\n").format(*ints[:firstline]))
+        nfull = (n - firstline) // 8
+        stop = firstline + 8 * nfull
+        for i in range(firstline, stop, 8):
+            f.write(("{:8s}" + "{:8d}" * 8 + "\\n").format("", *ints[i : i + 8]))
+        nleft = n - stop
+        if nleft > 0:
+            f.write(("{:8s}" + "{:8d}" * nleft + "\\n").format("", *ints[stop:]))
+    else:
+        f.write(("{:8d}" * n + "\\n").format(*ints))
+''', '''    n = len(ints)
+    firstline = 10 - start
+    if n >= firstline:
+        f.write(("{:8d}" * firstline + "\\n").format(*ints[:firstline]))
+        nfull = (n - firstline) // 8
+        stop = firstline + 8 * nfull
+        for i in range(firstline, stop, 8):
+            f.write(("{:8s}" + "{:8d}" * 8 + "\\n").format("", *ints[i : i + 8]))
+        nleft = n - stop
+        if nleft > 1:
+            f.write(("{:8s}" + "{:8d}" * nleft + "\\n").format("", *ints[stop:]))
+    else:
+        f.write(("{:8d}" * n + "\\n").format(*ints))
+''', _NASINTS, ["C13-R4"], "wtnasints: number of full lines and their end in closed form, range loop with a stride", "a single leftover integer is dropped")
+    # ---- the remainder as a slice of its own
+    + _pair('''    first = ints[: 10 - start]
+    rest = ints[10 - start :]
+    f.write(("{:8d}" * len(first) + "\\n").format(*first))
+    for k in range(0, len(rest), 8):
+        chunk = rest[k : k + 8]
+        f.write(("{:8s}" + "{:8d}" * len(chunk) + "\\n").format("", *chunk))
+''', '''    first = ints[: 10 - start]
+    rest = ints[11 - start :]
+    f.write(("{:8d}" * len(first) + "\\n").format(*first))
+    for k in range(0, len(rest), 8):
+        chunk = rest[k : k + 8]
+        f.write(("{:8s}" + "{:8d}" * len(chunk) + "\\n").format("", *chunk))
+''', _NASINTS, ["C13-R4"], "wtnasints: first line and remainder as two slices, the remainder in chunks of 8", "the remainder starts one integer late")
+    + _pair('''        pairs = d[tid][8:-1]  # x1, y1, x2, y2, ... (the last field is ENDT)
+        d[tid] = np.column_stack((pairs[::2], pairs[1::2]))
+''', '''        pairs = d[tid][8:-1]  # x1, y1, x2, y2, ... (the last field is ENDT)
+        d[tid] = np.column_stack((pairs[1::2], pairs[::2]))
+''', '''        vec = d[tid]
+        d[tid] = np.vstack([vec[8:-1:2], vec[9:-1:2]]).T
+''', ["C13-R3"], "rdtabled1: data fields sliced once, columns as every second element of that slice", "abscissae and ordinates exchanged")
+    # ---- lists filled in a loop with a constant trip count, starred
+    + _pair('''        if rows:
+            columns = []
+            for k in range(4):
+                columns.append(t[k:r:4])
+                columns.append(d[k:r:4])
+            writer.vecwrite(f, "        " + form * 4 + "\\n", *columns)
+''', '''        if rows:
+            columns = []
+            for k in range(4):
+                columns.append(d[k:r:4])
+                columns.append(t[k:r:4])
+            writer.vecwrite(f, "        " + form * 4 + "\\n", *columns)
+''', _T1_SMALL_VEC, ["C13-R1"], "tabled1 small field: the column list filled by a loop over range(4)", "ordinate before abscissa")
+    # ---- pieces of a template from a literal table keyed by conditions
+    + _pair('''    pieces = {
+        # (16 character fields, ps / seid given): text before, between and after the coordinates
+        (False, False): ("GRID    {:8d}{:8d}", "", "{:8d}\\n"),
+        (False, True): ("GRID    {:8d}{:8d}", "", "{:8d}{:>8}{:>8}\\n"),
+        (True, False): ("GRID*   {:16d}{:16d}", "\\n*       ", "{:16d}\\n"),
+        (True, True): ("GRID*   {:16d}{:16d}", "\\n*       ", "{:16d}{:>16}{:>16}\\n"),
+    }
+    extra = not (ps == seid == "")
+    before, between, after = pieces[length > 8, extra]
+    string = before + form + form + between + form + after
+    columns = [grids, cp, xyz[:, 0], xyz[:, 1], xyz[:, 2], cd]
+    if extra:
+        columns += [ps, seid]
+    writer.vecwrite(f, string, *columns)
+''', '''    pieces = {
+        # (16 character fields, ps / seid given): text before, between and after the coordinates
+        (False, False): ("GRID    {:8d}{:8d}", "", "{:8d}\\n"),
+        (False, True): ("GRID    {:8d}{:8d}", "", "{:8d}{:>8}{:>8}\\n"),
+        (True, False): ("GRID*   {:16d}{:16d}", "\\n*       ", "{:16d}\\n"),
+        (True, True): ("GRID*   {:16d}{:16d}", "\\n*      ", "{:16d}{:>16}{:>16}\\n"),
+    }
+    extra = not (ps == seid == "")
+    before, between, after = pieces[length > 8, extra]
+    string = before + form + form + between + form + after
+    columns = [grids, cp, xyz[:, 0], xyz[:, 1], xyz[:, 2], cd]
+    if extra:
+        columns += [ps, seid]
+    writer.vecwrite(f, string, *columns)
+''', _GRIDS_BODY, ["C13-R1"], "wtgrids: template pieces from a literal table keyed by (wide, ps/seid given), one starred vecwrite", "a 7-column continuation head in one entry")
+    # ---- output collected and written at once: writelines, "".join(list), print(..., file=f)
+    + _pair("""    head = []
+    if title:
+        head.append(f"$ {title:s}\\n")
+    if n == 32:
+        head.append(f"{tablestr + '*':<8s}{tid:16d}\\n")
+        head.append("*\\n")
+        start, per = "*       ", 2
+    else:
+        head.append(f"{tablestr:<8s}{tid:8d}\\n")
+        start, per = " " * 8, 4
+    f.writelines(head)
+    nfull, nleft = divmod(npts, per)
+    r = npts - nleft
+    if nfull > 0:
+        if per == 2:
+            writer.vecwrite(f, start + form * 2 + "\\n", t[:r:2], d[:r:2], t[1:r:2], d[1:r:2])
+        else:
+            writer.vecwrite(
+                f,
+                start + form * 4 + "\\n",
+                t[:r:4],
+                d[:r:4],
+                t[1:r:4],
+                d[1:r:4],
+                t[2:r:4],
+                d[2:r:4],
+                t[3:r:4],
+                d[3:r:4],
+            )
+    tail = [start]
+    tail.extend(form.format(t[j], d[j]) for j in range(r, npts))
+    print("".join(tail), "ENDT", sep="", file=f)
+""", """    head = []
+    if title:
+        head.append(f"$ {title:s}\\n")
+    if n == 32:
+        head.append(f"{tablestr + '*':<8s}{tid:16d}\\n")
+        start, per = "*       ", 2
+    else:
+        head.append(f"{tablestr:<8s}{tid:8d}\\n")
+        start, per = " " * 8, 4
+    f.writelines(head)
+    nfull, nleft = divmod(npts, per)
+    r = npts - nleft
+    if nfull > 0:
+        if per == 2:
+            writer.vecwrite(f, start + form * 2 + "\\n", t[:r:2], d[:r:2], t[1:r:2], d[1:r:2])
+        else:
+            writer.vecwrite(
+                f,
+                start + form * 4 + "\\n",
+                t[:r:4],
+                d[:r:4],
+                t[1:r:4],
+                d[1:r:4],
+                t[2:r:4],
+                d[2:r:4],
+                t[3:r:4],
+                d[3:r:4],
+            )
+    tail = [start]
+    tail.extend(form.format(t[j], d[j]) for j in range(r, npts))
+    print("".join(tail), "ENDT", sep="", file=f)
+""", _T1_TITLE_BODY, ["C13-R3"], "wttabled1: header by writelines, last line joined from a list and written with print(..., file=f)",
+            "the blank continuation line of the large-field header is lost (first pair in field 4)")
+    # ---- shifts
+    + _pair('''        r = npts >> 2 << 2
+        if r >= 4:''', '''        r = npts >> 2 << 2
+        if r >= 0:''', '''        rows = npts // 4
+        r = rows * 4
+        if rows:''', ["C13-R2"], "tabled1 small field: full-line extent by shifts", "the guard lets an empty vectorised write through")
+    # ---- inputs unpacked from a generator expression over np.atleast_1d(t, d)
+    + _pair('''    t, d = (arr.ravel() for arr in np.atleast_1d(t, d))
+    npts = len(t)''', '''    d, t = (arr.ravel() for arr in np.atleast_1d(t, d))
+    npts = len(t)''', _T1_INPUTS, ["C13-R1"], "tabled1 inputs flattened by a generator expression over np.atleast_1d(t, d)", "abscissae and ordinates exchanged")
+    # ---- the cards handed to the card reader without a local, op2 branch first
+    + [("C13", "neutral", [], B, _RDDMIG_MAIN, '''    if f is not None and not isinstance(f, str):
+        # assume file handle, assume punch
+        source = f
+    else:
+        # read op2 or punch ... try op2, if that fails, assume punch:
+        source = guitools.get_file_name(f, read=True)
+        try:
+            o2 = op2.OP2(source)
+        except ValueError:
+            pass
+        else:
+            o2dct = _read_op2_dmig(o2, dmig_names)
+            del o2
+            return _recs_to_df(o2dct)
+    return _cards_to_df(
+        rdcards(
+            source,
+            name="dmig",
+            return_var="list",
+            blank="",
+            follow_includes=follow_includes,
+            include_symbols=include_symbols,
+        ),
+        dmig_names,
+    )
+''', "rddmig: one rdcards call whose result is passed straight to the card reader")]
+    # ---- a number formatter of its own, the spec handed down as an argument
+    + _pair('''                        num_str = _dmig_number(num, mtype, "16.9E")
+                        f.write(f"{'*':<8s}{gi:16d}{ci:16d}{num_str:s}\\n")
+
+
+def _dmig_number(num, mtype, spec):
+    if mtype < 3:  # real
+        num_str = format(num, spec)
+    else:  # complex
+        num_str = format(num.real, spec) + format(num.imag, spec)
+    if mtype & 1 == 0:  # if even
+        num_str = num_str.replace("E", "D")
+    return num_str
+''', '''                        num_str = _dmig_number(num, mtype, "16.10E")
+                        f.write(f"{'*':<8s}{gi:16d}{ci:16d}{num_str:s}\\n")
+
+
+def _dmig_number(num, mtype, spec):
+    if mtype < 3:  # real
+        num_str = format(num, spec)
+    else:  # complex
+        num_str = format(num.real, spec) + format(num.imag, spec)
+    if mtype & 1 == 0:  # if even
+        num_str = num_str.replace("E", "D")
+    return num_str
+''', _DMIG_TERM, ["C13-R1"], "wtdmig: the term formatted by a module-level helper that gets the spec as an argument (F12 keys must survive)",
+            "another spec that is too narrow (not the known finding)")
+)
